@@ -3,9 +3,10 @@
 import json, os, shutil, sys, glob, re
 prop, k, caught = sys.argv[1], sys.argv[2], sys.argv[3]
 needs = " ".join(sys.argv[4:])
-src = "/tmp/wt/out/%s/%s" % (prop, k)
+srcid, srck = os.environ.get("SRCID", prop), os.environ.get("SRCK", k)      # round-2 agents wrote to /tmp/wt/out/<prop>r2/{A,B}
+src = "/tmp/wt/out/%s/%s" % (srcid, srck)
 dst = "/verif/seeded/%s-%s" % (prop, k)
-conf = "/tmp/wt/confirm/%s-%s.txt" % (prop, k)
+conf = "/tmp/wt/confirm/%s-%s.txt" % (srcid, srck)
 txt = open(conf).read() if os.path.exists(conf) else ""
 if "CONFIRMED" not in txt or "NOT-CONFIRMED" in txt:
     sys.exit("not confirmed: %s" % conf)
